@@ -1015,6 +1015,17 @@ class SingleGrid(_PropertyGrid):
         self._empty_mask[agent.pos] = True
         agent.pos = None
 
+    def move_agent(self, agent: Agent, pos: Coordinate) -> None:
+        """Move an agent from its current position to a new position.
+
+        A move to a cell occupied by another agent is rejected before anything changes.
+        """
+        pos = self.torus_adj(pos)
+        x, y = pos
+        if not self.is_cell_empty(pos) and self._grid[x][y] is not agent:
+            raise Exception("Cell not empty")
+        super().move_agent(agent, pos)
+
 
 class MultiGrid(_PropertyGrid):
     """Rectangular grid where each cell can contain more than one agent.
